@@ -8,11 +8,16 @@
 struct vf_in {
 	unsigned char j[NJ * B];
 	unsigned int s_start, s_sequence, s_first;
+#if FEAT_CSUM
+	unsigned int csum[NJ];		/* "the checksum of journal block k" */
+#endif
 };
 VF_DECLARE_INPUT(struct vf_in, IN)
 #include "vf_input.inc"
 
 #define VF_NO_REVOKE
+#define VF_CSUM_WORD(k) IN.csum[k]
+#define REF_CSUM(k) IN.csum[k]
 #include "jgeom.h"
 #include "jenv.h"
 
@@ -30,6 +35,10 @@ int main(void)
 
 	VF_INPUT(IN);
 	VF_ASSUME_GEOMETRY();
+#if FEAT_CSUM
+	/* ASSUME: transaction ids in the log are not 0 (recovery.c uses end_transaction == 0 / j_failed_commit == 0 as "unset": reported as an observation) */
+	ASSUME(IN.s_sequence >= 1 && IN.s_sequence < 0xffffff00u);
+#endif
 	vf_make_journal(VF_FIRST, IN.s_sequence, VF_START);
 
 	ref_walk(IN.s_sequence);
@@ -39,8 +48,21 @@ int main(void)
 
 	rc = do_one_pass(&vf_journal, &info, PASS_SCAN);
 
+#if FEAT_CSUM
+	if (ref_scan_error) {
+		PROP(rc != 0, "a checksum-invalid descriptor/revoke block followed by a newer commit block fails recovery");
+	} else {
+		PROP(rc == 0, "scan succeeds");
+		PROP(info.end_transaction == IN.s_sequence + ref_end_ord, "end of log = first transaction without a (checksum-)valid commit, wherever the log wraps");
+		PROP(vf_journal.j_failed_commit == (ref_failed_commit ? IN.s_sequence + ref_failed_ord : 0),
+		     "failed commit reported iff a transaction that looks committed failed its checksum");
+	}
+	PROP(vf_csum_partial == 0, "checksums cover whole journal blocks");
+#else
 	PROP(rc == 0, "scan succeeds");
 	PROP(info.end_transaction == IN.s_sequence + ref_ncommits, "end of log = first transaction without a commit block");
+#endif
+	PROP(vf_j_range_viol == 0, "every block read by the scan lies inside the circular log [j_first, j_last)");
 	PROP(info.start_transaction == IN.s_sequence, "start transaction is the superblock's sequence");
 	PROP(vf_fs_writes == 0 && vf_fs_oob_writes == 0 && vf_j_writes == 0, "scanning writes nothing");
 	PROP(vf_j_oob_reads == 0, "scan stays inside the journal");
